@@ -298,7 +298,7 @@ def intpow_extra(ctx: Ctx):
     # an integer-valued Conditional as the base of a negative (literal or computed) power
     edge = rng.choice(["10**19", "2**63", "3**40", "9223372036854775808", "18446744073709551615", "2**64", "-2**63"])
     text = (f"states(x=0.5, y=-0.25)\nparameters(a=0.75)\n"
-            f"frac = {rng.choice([1, 3, 7])}/{b1}**{n1}\nbig = {b2}**{n2}*1e-12\nedge = ({edge})*1e-19\n"
+            f"frac = {rng.choice([1, 3, 7])}/{b1}**{n1}\nbig = {b2}**{n2}*1e-12\nedge = x*({edge})*1e-19 + (({edge}) + y)*1e-19\n"
             f"nexp = Conditional(Lt(x, 0), 2, -3)\nscale = a*{rng.choice([10, 2, 7])}**nexp + 2**Conditional(Gt(y, 0), -2, 1)\n"
             f"cpow = Conditional(Gt(x, 0), 3, 2)**-2 + a*Conditional(Lt(y, 0), 2, 4)**nexp\n"
             f"dx_dt = a*frac - x/{b1}**{n1} + big*1e-3 + edge\ndy_dt = -y*(x/{rng.choice([2, 5])}**{n1}) + {b1}**{n1}*a + scale + cpow\n")
